@@ -108,16 +108,26 @@ def create(route, path, outfile, piece_length=None, progress=1, announce=None, u
         return Outcome(exc=exc, tb=traceback.format_exc())
 
 
+def _as_number(oc):
+    """A textual percentage ('100', '99.5%') is read as the number it denotes."""
+    if oc.ok and isinstance(oc.ret, str):
+        try:
+            oc.ret = float(oc.ret.strip().rstrip("%"))
+        except ValueError:
+            pass
+    return oc
+
+
 def recheck_lib(metafile, content):
     recheck = _mods()[4]
     try:
-        return Outcome(ret=recheck.Checker(metafile, content).results())
+        return _as_number(Outcome(ret=recheck.Checker(metafile, content).results()))
     except BaseException as exc:  # noqa
         return Outcome(exc=exc, tb=traceback.format_exc())
 
 
 def recheck_cli(metafile, content, spelling="recheck", prefix=()):
-    return cli_execute(list(prefix) + [spelling, metafile, content])
+    return _as_number(cli_execute(list(prefix) + [spelling, metafile, content]))
 
 
 def quiet_stdout():
